@@ -211,8 +211,8 @@ fn run(sh: &mut Shard) {
         }
         sh.running()
     });
-    // the offset sweep (C11): every operand byte value of the jumps and slots of 26 small control programs
-    super::c11::offset_sweep(&mut |prog| {
+    // the offset sweep (C11): every operand byte value of the jumps and slots of 36 small control programs, every jump target below 1 500 (4 200)
+    super::c11::offset_sweep(if sh.cfg.tier == crate::shard::Tier::Quick { 1_500 } else { 4_200 }, &mut |prog| {
         if sh.mine() {
             let text = printer::program(prog);
             sh.begin(&|| text.clone());
